@@ -6,7 +6,7 @@ def core_schema(mutation=True, subscription=True):
     types = [
         iface("Node", [("id", "ID!"), ("label", "String")]),
         iface("Named", [("name", "String!")]),
-        obj("User", [("id", "ID!"), ("label", "String"), ("name", "String!"), ("age", "Int"), ("extId", "ID"), ("friend", "Node"),
+        obj("User", [("id", "ID!"), ("label", "String"), ("name", "String!"), ("age", "Int"), ("extId", "ID"), ("aliases", "[ID!]"), ("friend", "Node"),
                      ("friends", "[User!]!"), ("tags", "[String]"), ("pet", "Pet"), ("role", "Role"),
                      ("since", "Date"), ("score", "Float"), ("active", "Boolean!"),
                      FieldDef("legacy", "String", dep=("use label",))], ["Node", "Named"]),
@@ -60,7 +60,7 @@ def fragment_library():
     F["ThingF"] = FragDef("ThingF", "Thing", [TN(), Inline("Cat", [Field("lives")])])
     F["QF"] = FragDef("QF", "Q", [Field("version")])
     F["UserT"] = FragDef("UserT", "User", [TN(), Field("name")])
-    F["UserX"] = FragDef("UserX", "User", [Field("extId"), Field("age")])
+    F["UserX"] = FragDef("UserX", "User", [Field("extId"), Field("age"), Field("aliases")])
     F["CatT"] = FragDef("CatT", "Cat", [TN(), Field("lives")])
     F["UserRec"] = FragDef("UserRec", "User", [Field("id"), Field("friends", [Spread("UserRec")])])
     F["NodeRec"] = FragDef("NodeRec", "Node", [TN(), Field("id"),
@@ -97,7 +97,7 @@ def items_user():
         ("pet", Field("pet", [TN(), Inline("Cat", [Field("lives")])])), ("__typename", TN()),
         ("...UserA", Spread("UserA")), ("...UserB", Spread("UserB")), ("...NodeF", Spread("NodeF")),
         ("on User", Inline("User", [Field("age")])), ("on Node", Inline("Node", [Field("label")])),
-        ("...UserRec", Spread("UserRec")), ("extId", Field("extId")), ("...UserX", Spread("UserX")),
+        ("...UserRec", Spread("UserRec")), ("extId", Field("extId")), ("...UserX", Spread("UserX")), ("aliases", Field("aliases")),
     ]
 
 
